@@ -283,7 +283,7 @@ def worker(batch):
 
 def cases(ctx):
     seen = set()
-    seeds = SEEDS if not ctx.quick else {k: SEEDS[k] for k in ('func', 'class', 'try', 'coll')}
+    seeds = SEEDS
     alphabet = TOKEN_ALPHABET if not ctx.quick else TOKEN_ALPHABET[::3]
 
     def emit(kind, text):
@@ -327,7 +327,7 @@ def run(ctx):
     return {
         'evaluations': n * 2,
         'distinct_nontrivial': n,
-        'rule': f'seeds {list(SEEDS)}; ill-typed programs {len(ILL_TYPED)}; every single token deviation (delete, duplicate, replace/insert each of {len(TOKEN_ALPHABET) if not ctx.quick else len(TOKEN_ALPHABET[::3])} tokens, layout token removed/added) of {"all" if not ctx.quick else "4"} seeds; every truncation and every byte insertion {BYTES!r} at every offset of {"all" if not ctx.quick else "2"} seeds; token soups of length <= {2 if ctx.quick else 3}; texts are distinct; each runs in memory and on disk',
+        'rule': f'seeds {list(SEEDS)}; ill-typed programs {len(ILL_TYPED)}; every single token deviation (delete, duplicate, replace/insert each of {len(TOKEN_ALPHABET) if not ctx.quick else len(TOKEN_ALPHABET[::3])} tokens, layout token removed/added) of all seeds; every truncation and every byte insertion {BYTES!r} at every offset of {"all" if not ctx.quick else "2"} seeds; token soups of length <= {2 if ctx.quick else 3}; texts are distinct; each runs in memory and on disk',
         'samples': [cs[0][1][:80], cs[len(cs) // 2][1][:80], cs[-1][1][:40]],
         'accepted_by_grammar': parsable,
         'outcome_pairs_memory_disk': {f'{a}|{b}': c for (a, b), c in top},
